@@ -1,15 +1,20 @@
 #!/usr/bin/env python3
 """Collect verified seeded changes into /verif/seeded/<id>/ and write seeded/RESULTS.md
-from the verification logs produced by tools/mutverify.sh (usage: collect_seeded.py <log>…)."""
+from the verification logs produced by tools/mutverify.sh.
+usage: collect_seeded.py [<root>:<round-tag>:] <log>… [<root2>:<tag2>: <log>…]
+  e.g.  collect_seeded.py /tmp/mut:: w1.log w2.log /tmp/mut2:r2: w5.log w6.log"""
 import json, os, re, shutil, sys
 V = os.path.dirname(os.path.dirname(os.path.abspath(__file__)))
 rows = {}
+root, tag = "/tmp/mut", ""
 for log in sys.argv[1:]:
+    g = re.match(r"^(/\S+):(\w*):$", log)
+    if g: root, tag = g.group(1), g.group(2); continue
     cur = None
     for line in open(log, errors="replace"):
         m = re.match(r"######## (\S+)", line)
         if m:
-            cur = m.group(1)
+            cur = (root, tag, m.group(1))
             if cur not in rows: rows[cur] = {"demo_without": None, "demo_with": None, "suite": None, "checks": {}, "history": []}
             stage = None; continue
         if cur is None: continue
@@ -38,9 +43,9 @@ out = ["# Seeded changes: verification and detection", "",
        "Produced by independent sub-agents (property text + own worktree only), re-verified with `tools/mutverify.sh`.",
        "`demo` = the agent's demonstration test without / with the change; `suite` = existing tests with the change.", "",
        "| id | breaks | demo w/o → with | checks run → verdict |", "|---|---|---|---|"]
-for mid, r in rows.items():
-    src = f"/tmp/mut/{mid}"
-    sid = mid.replace("/out2", "-b").replace("/out", "-a")
+for (root, tag, mid), r in rows.items():
+    src = f"{root}/{mid}"
+    sid = mid.replace("/out2", f"-{tag}b").replace("/out", f"-{tag}a")
     dst = os.path.join(V, "seeded", sid)
     meta = {}
     if os.path.isdir(src):
@@ -50,7 +55,7 @@ for mid, r in rows.items():
         try: meta = json.load(open(os.path.join(src, "meta.json")))
         except Exception: meta = {}
     meta["verified_by_me"] = {"demo_without_change": r["demo_without"], "demo_with_change": r["demo_with"], "suite_with_change": r["suite"],
-                              "checks": r["checks"], "earlier_runs": r["history"], "commands": [f"tools/mutverify.sh /tmp/mut/{mid} " + " ".join(r["checks"].keys())]}
+                              "checks": r["checks"], "earlier_runs": r["history"], "commands": [f"tools/mutverify.sh {root}/{mid} " + " ".join(r["checks"].keys())]}
     if os.path.isdir(dst): json.dump(meta, open(os.path.join(dst, "meta.json"), "w"), indent=1)
     breaks = (meta.get("summary") or meta.get("what_it_breaks") or "")[:140].replace("|", "/").replace("\n", " ")
     ch = "; ".join(f"{p}: {c['verdict']}" for p, c in r["checks"].items())
